@@ -982,87 +982,94 @@ func checkLoops(ctx *Ctx, r *Report, fn *ssa.Function) {
 		}
 		n++
 		key := fmt.Sprintf("%s|loop#%d", shortFn(fn), n)
-		// find the exit condition: an If in the header (or in a block of the loop) with a successor outside the loop
-		ok := false
-		why := "no bounded exit condition found"
-		for _, lb := range fn.Blocks {
-			if !b.Dominates(lb) || !reachableFrom(lb)[b] {
-				continue
-			}
-			iff, isIf := lb.Instrs[len(lb.Instrs)-1].(*ssa.If)
-			if !isIf {
-				continue
-			}
-			// the test must be able to end the loop: one side leaves it. (`for sc.Scan() ||
-			// other` has the Scan test continue into a second test, which alone decides.)
-			leaves := false
-			for _, su := range lb.Succs {
-				if ld := descs[b]; ld != nil {
-					if !ld.in[su] {
-						leaves = true
-					}
-				} else if !(b.Dominates(su) && reachableFrom(su)[b]) {
+		ok, why := loopBounded(fn, b, descs)
+		r.check("L3", key, b.Instrs[0].Pos(), ok, why)
+	}
+}
+
+// loopBounded: the loop with header b has an exit test that bounds it: a counter against a loop
+// invariant, a range, a shrinking window, bufio.Scanner.Scan (or a pull iterator built on it).
+func loopBounded(fn *ssa.Function, b *ssa.BasicBlock, descs map[*ssa.BasicBlock]*loopDesc) (bool, string) {
+	// find the exit condition: an If in the header (or in a block of the loop) with a successor outside the loop
+	ok := false
+	why := "no bounded exit condition found"
+	for _, lb := range fn.Blocks {
+		if !b.Dominates(lb) || !reachableFrom(lb)[b] {
+			continue
+		}
+		iff, isIf := lb.Instrs[len(lb.Instrs)-1].(*ssa.If)
+		if !isIf {
+			continue
+		}
+		// the test must be able to end the loop: one side leaves it. (`for sc.Scan() ||
+		// other` has the Scan test continue into a second test, which alone decides.)
+		leaves := false
+		for _, su := range lb.Succs {
+			if ld := descs[b]; ld != nil {
+				if !ld.in[su] {
 					leaves = true
 				}
+			} else if !(b.Dominates(su) && reachableFrom(su)[b]) {
+				leaves = true
 			}
-			if !leaves {
-				continue
-			}
-			c, _ := stripNot(iff.Cond)
-			// a window that shrinks by a positive constant each turn, tested on its length
-			if bo, isB := c.(*ssa.BinOp); isB {
-				for _, side := range []ssa.Value{bo.X, bo.Y} {
-					if arg, isLen := lenCallOf(side); isLen {
-						if wp, isPhi := arg.(*ssa.Phi); isPhi && wp.Block() == b && len(wp.Edges) == 2 {
-							for i, e := range wp.Edges {
-								if sl, isSl := e.(*ssa.Slice); isSl && isBackEdge(b.Preds[i], b) && sl.X == ssa.Value(wp) && sl.High == nil && sl.Low != nil {
-									if k, okK := constInt(sl.Low); okK && k > 0 {
-										ok = true
-										why = "window shrinking by a constant"
-									}
+		}
+		if !leaves {
+			continue
+		}
+		c, _ := stripNot(iff.Cond)
+		// a window that shrinks by a positive constant each turn, tested on its length
+		if bo, isB := c.(*ssa.BinOp); isB {
+			for _, side := range []ssa.Value{bo.X, bo.Y} {
+				if arg, isLen := lenCallOf(side); isLen {
+					if wp, isPhi := arg.(*ssa.Phi); isPhi && wp.Block() == b && len(wp.Edges) == 2 {
+						for i, e := range wp.Edges {
+							if sl, isSl := e.(*ssa.Slice); isSl && isBackEdge(b.Preds[i], b) && sl.X == ssa.Value(wp) && sl.High == nil && sl.Low != nil {
+								if k, okK := constInt(sl.Low); okK && k > 0 {
+									ok = true
+									why = "window shrinking by a constant"
 								}
 							}
 						}
 					}
 				}
 			}
-			switch x := c.(type) {
-			case *ssa.BinOp:
-				if x.Op == token.LSS || x.Op == token.LEQ || x.Op == token.GTR || x.Op == token.GEQ || x.Op == token.NEQ {
-					// counted loop: one side an induction phi (or phi+1), the other loop invariant
-					for _, side := range []ssa.Value{x.X, x.Y} {
-						v := side
-						if bo, isB := v.(*ssa.BinOp); isB && bo.Op == token.ADD {
-							v = bo.X
-						}
-						if p, isPhi := v.(*ssa.Phi); isPhi && p.Block() == b {
-							ok = true
-							why = "counted loop"
-						}
+		}
+		switch x := c.(type) {
+		case *ssa.BinOp:
+			if x.Op == token.LSS || x.Op == token.LEQ || x.Op == token.GTR || x.Op == token.GEQ || x.Op == token.NEQ {
+				// counted loop: one side an induction phi (or phi+1), the other loop invariant
+				for _, side := range []ssa.Value{x.X, x.Y} {
+					v := side
+					if bo, isB := v.(*ssa.BinOp); isB && bo.Op == token.ADD {
+						v = bo.X
 					}
-				}
-			case *ssa.Call:
-				if f := x.Call.StaticCallee(); f != nil && f.String() == "(*bufio.Scanner).Scan" {
-					ok = true
-					why = "driven by bufio.Scanner.Scan"
-				}
-			case *ssa.Extract:
-				if _, isNext := x.Tuple.(*ssa.Next); isNext {
-					ok = true
-					why = "range"
-				}
-				// `for { v, ok := it.next(); if !ok { break } .. }`: a pull iterator whose
-				// "more" result is true only after a successful Scan of a bufio.Scanner
-				if call, isCall := x.Tuple.(*ssa.Call); isCall {
-					if g := call.Call.StaticCallee(); g != nil && inModule(g) && scanDriven(g, x.Index) {
+					if p, isPhi := v.(*ssa.Phi); isPhi && p.Block() == b {
 						ok = true
-						why = "driven by " + g.Name() + ", which yields only after a successful bufio.Scanner.Scan"
+						why = "counted loop"
 					}
 				}
 			}
+		case *ssa.Call:
+			if f := x.Call.StaticCallee(); f != nil && f.String() == "(*bufio.Scanner).Scan" {
+				ok = true
+				why = "driven by bufio.Scanner.Scan"
+			}
+		case *ssa.Extract:
+			if _, isNext := x.Tuple.(*ssa.Next); isNext {
+				ok = true
+				why = "range"
+			}
+			// `for { v, ok := it.next(); if !ok { break } .. }`: a pull iterator whose
+			// "more" result is true only after a successful Scan of a bufio.Scanner
+			if call, isCall := x.Tuple.(*ssa.Call); isCall {
+				if g := call.Call.StaticCallee(); g != nil && inModule(g) && scanDriven(g, x.Index) {
+					ok = true
+					why = "driven by " + g.Name() + ", which yields only after a successful bufio.Scanner.Scan"
+				}
+			}
 		}
-		r.check("L3", key, b.Instrs[0].Pos(), ok, why)
 	}
+	return ok, why
 }
 
 // scanDriven: every return of g whose result number k can be true lies inside the true branch of
